@@ -34,9 +34,9 @@ NOTES = "All checks: ./check <ID> --tier quick|thorough; exit 0 held / 1 VIOLATI
 LEVEL_NOTE = "Trusted base: the reference model in harness/ref (calibrated at the start of every run on the 862 compliance cases, CPython slicing and CFG-vs-Pratt agreement; a calibration failure is a HARNESS-ERROR, never a violation), the Go standard library (encoding/json, strconv, reflect, utf8), rapid v1.3.0. Exploration: no claim for inputs not generated."
 
 PROPS["C01"] = {
-    "quick": [plain("TestDeepDocs", shards=4), rapid("TestC01", 15000, shards=4), plain("TestC01TokenSizes")],
-    "thorough": [plain("TestDeepDocs", shards=4), rapid("TestC01", 600000, shards=16), plain("TestC01TokenSizes")],
-    "rule": "rapid: G-doc document x document-aware core-fragment expression (identifiers incl. quoted/empty/non-ASCII, sub-expressions, indices, literals, raw strings, @, parentheses, pipes, multi-select lists/hashes; three whitespace renderings); oracle: library one-shot Search and Compile+Search vs reference evaluator. Non-trivial: result non-null, or null for a named reason (missing key, out-of-range index, field on non-object, index on non-array, multi-select on null). Distinct by hash of (expression text, document text). Deep documents (TestDeepDocs): 32 expressions whose result is or contains part of the document x documents nested 0..72 and around 96..2049 deep x 3 container mixes, against the reference model.",
+    "quick": [plain("TestC01NullMultiSelect"), plain("TestDeepDocs", shards=4), rapid("TestC01", 15000, shards=4), plain("TestC01TokenSizes")],
+    "thorough": [plain("TestC01NullMultiSelect"), plain("TestDeepDocs", shards=4), rapid("TestC01", 600000, shards=16), plain("TestC01TokenSizes")],
+    "rule": "rapid: G-doc document x document-aware core-fragment expression (identifiers incl. quoted/empty/non-ASCII, sub-expressions, indices, literals, raw strings, @, parentheses, pipes, multi-select lists/hashes; three whitespace renderings); oracle: library one-shot Search and Compile+Search vs reference evaluator. Non-trivial: result non-null, or null for a named reason (missing key, out-of-range index, field on non-object, index on non-array, multi-select on null). Distinct by hash of (expression text, document text). Deep documents (TestDeepDocs): 32 expressions whose result is or contains part of the document x documents nested 0..72 and around 96..2049 deep x 3 container mixes, against the reference model. Exhaustive small forms (TestC01NullMultiSelect): 11 ways to a null or non-null current node x 11 multi-selects (literal, raw-string and field members) x 15 continuations x 3 contexts x 3 documents.",
     "assumptions": COMMON_ASSUMPTIONS,
     "min_nontrivial": 1000,
     "technique": "differential property-based testing against an independent reference evaluator (rapid, document-aware expression generator)",
